@@ -689,3 +689,20 @@ CHECKS["C12"]["text"] += (
     " The mask returned with downsampled scatter data marks nothing "
     "excluded and equals, on the selected events, the mask of the "
     "selected-only dataset.")
+CHECKS["C06"]["text"] += (
+    " The temporary feature set includes temporary features named like two "
+    "computed features (time, area_ratio): they take precedence whether or "
+    "not the computed feature was read before.")
+CHECKS["C19"]["text"] += (
+    " All file objects of a run use one URL on one long-lived session (as "
+    "dclab's per-host session cache does), so what the URL serves is "
+    "replaced between file objects.")
+CHECKS["C20"]["text"] += (
+    " A second value alphabet {int, NaN, +inf} (exact arithmetic extended by "
+    "+infinity in SummariesSpec) is enumerated and replayed as well.")
+CHECKS["C17"]["text"] += (
+    " A fourth pool family holds a square two-dimensional array and its "
+    "transpose (views of the same memory).")
+CHECKS["C18"]["text"] += (
+    " The contours of a stack of masks are read event by event in an order "
+    "with repetitions and compared with the contour of each mask.")
